@@ -128,7 +128,7 @@ def dv_values(rng, d):
     return pool
 
 
-def check_graph(ctx, rep, spec, enc):
+def check_graph(ctx, rep, spec, enc, preset='auto'):
     drv = ctx.driver
     rng = ctx.rng
     try:
@@ -139,6 +139,17 @@ def check_graph(ctx, rep, spec, enc):
     if not b.dsg.feasible:
         rep.count('graph:init-infeasible')
         return
+    # sometimes the design space graph itself already carries a (default) value for a design-variable node
+    dvn = [b.nodes[d['node']] for d in spec['dvs'] if b.nodes[d['node']] in b.dsg.graph.nodes]
+    if preset == 'auto':
+        preset = b.idx[rng.choice(dvn)] if (dvn and rng.random() < .35) else None
+    if preset is not None:
+        nd = b.nodes[preset]
+        try:
+            b.dsg.set_des_var_value(nd, 0 if nd.is_discrete else nd.bounds[0])
+        except Exception:
+            preset = None
+    held = []
     try:
         gp = GraphProcessor(b.dsg, encoder_type=enc)
         dvs = gp.des_vars
@@ -170,7 +181,7 @@ def check_graph(ctx, rep, spec, enc):
                     v = 0
                 x[i] = v
                 raw[i] = v
-            inp = {'level': 'graph', 'spec': spec, 'enc': enc.name, 'x': [repr(v) for v in x]}
+            inp = {'level': 'graph', 'spec': spec, 'enc': enc.name, 'x': [repr(v) for v in x], 'preset': preset}
             try:
                 inst, x_imp, act = gp.get_graph(list(x))
                 x_imp2 = act2 = None
@@ -225,8 +236,21 @@ def check_graph(ctx, rep, spec, enc):
                 if (bool(act2[i]), x_imp2[i]) != got:
                     rep.disagree('dv-create-flag', inp, {'var': i, 'create': repr(got), 'nocreate': repr((act2[i], x_imp2[i]))}, cls)
             rep.case(inp, nontrivial=nontrivial, sample=inp if nontrivial else None)
+            if len(held) < 12:
+                held.append((inp, inst, {d['node']: inst.des_var_value(b.nodes[d['node']]) for d in spec['dvs']
+                                         if d['node'] in present}))
             if ctx.out_of_time():
-                return
+                break
+        else:
+            continue
+        break
+    # a decoded architecture keeps the values of its own vector, whatever was decoded afterwards
+    for inp, inst, vals in held:
+        now = {nid: inst.des_var_value(b.nodes[nid]) for nid in vals}
+        if now != vals:
+            rep.disagree('dv-stored-value', inp, {'stored_at_decode': repr(vals), 'stored_later': repr(now)},
+                         {'linked': False, 'kind': 'any', 'exists': True, 'has_var': True, 'changed_later': True})
+            break
 
 
 def in_domain(d, v):
@@ -285,7 +309,7 @@ def replay(ctx, rep, payload):
     inp = payload['input']
     if inp.get('level') == 'graph':
         enc = SelChoiceEncoderType[inp['enc']]
-        check_graph(ctx, rep, inp['spec'], enc)
+        check_graph(ctx, rep, inp['spec'], enc, preset=inp.get('preset'))
     else:
         check_function_level(ctx, rep)
 
@@ -294,7 +318,7 @@ def replay_finding(ctx, f):
     from ..core import Report
     rep = Report()
     inp = f['replay']
-    check_graph(ctx, rep, inp['spec'], SelChoiceEncoderType[inp['enc']])
+    check_graph(ctx, rep, inp['spec'], SelChoiceEncoderType[inp['enc']], preset=inp.get('preset'))
     return any(d['kind'] in f.get('kinds', [f.get('kind')]) for d in rep.disagreements)
 
 
